@@ -850,6 +850,7 @@ func viewsCoq(vs []viewT) string {
 func main() {
 	args := common.ParseArgs()
 	run := common.NewRun(args, "C05", "HV.Record.Gob")
+	run.Shard = 100 // cases are a few KB each: smaller shards evaluate in parallel
 	run.Meta.Rule = "non-trivial = the case stores at least one typed zero-like value (0, -0.0, \"\", false, empty bytes, empty uint32 set) or, for gob/value cases, the value is such a zero"
 	rig.Quiet()
 	fixed := hasHintField()
